@@ -112,7 +112,15 @@ class Injected(Exception):
     """custom exception class used as one of the injected faults"""
 
 
-FAULTS = {"ValueError": ValueError, "KeyError": KeyError, "TypeError": TypeError, "Injected": Injected}
+class NoArgs(Exception):
+    """raised without any argument (what a bare `assert`, `raise NotImplementedError` or `next()` on an empty iterator produce):
+    error handlers that format exc.args[0] must cope with it"""
+
+    def __init__(self, *_a):
+        super().__init__()
+
+
+FAULTS = {"ValueError": ValueError, "KeyError": KeyError, "TypeError": TypeError, "Injected": Injected, "NoArgs": NoArgs}
 
 
 class Ticker:
